@@ -29,6 +29,7 @@ def parseOp (s : String) : Option Op :=
       | '+' :: r => (parseRT (String.ofList r)).map (fun (a, b) => Op.sIns k a b)
       | '-' :: r => (parseRT (String.ofList r)).map (fun (a, b) => Op.sRet k a b)
       | ['R'] => some (.sRule k)
+      | ['C'] => some (.sClear k)
       | ['c'] => some (.qCount k)
       | 'q' :: r => (String.ofList r).toNat?.map (fun r => Op.qScan k r)
       | _ => none
@@ -128,6 +129,7 @@ def checkThread (prefixes : List SetState) (prog : List Op) (res : List String) 
         let had := (s.2.1.getD r []).contains x
         if e.2 != (if had then "n1" else "n0") then (acc.1, some "session-retract-count") else (put k (sDel s.2.1 r x) s.2.2, none)
       | .sRule k => let s := sessOf k; if e.2 != "ok" then (acc.1, some "session-rule") else (put k s.2.1 (s.2.2 + 1), none)
+      | .sClear k => if e.2 != "ok" then (acc.1, some "session-clear") else (put k [] 0, none)
       | .pIns _ _ => (acc.1, if e.2 == "ok" then none else some "persistent-insert-failed")
       | .pDel _ _ => (acc.1, if e.2 == "ok" then none else some "persistent-delete-failed")
       | .qScan k r =>
